@@ -56,6 +56,10 @@ type Scenario struct {
 	// Duplex: the handler reads the request on one goroutine while it writes the response on
 	// another (only generated for scenarios whose outcome does not depend on their interleaving).
 	Duplex bool `json:"duplex,omitempty"`
+	// Gates (lock-step client, one entry per body chunk): the number of response messages the
+	// client must have received before it sends that chunk. Not part of the model: the model's
+	// prediction is that such a client is never kept waiting.
+	Gates []int `json:"gates,omitempty"`
 	// Relayed lists the error message texts the backend script emits (hex), so the
 	// canonicaliser can tell relayed texts (compared exactly) from generated ones.
 	Relayed []string `json:"relayed"`
@@ -104,6 +108,14 @@ type chunkReader struct {
 	chunks [][]byte
 	end    string
 	closed bool
+	pulled int // bytes handed out so far
+	// lock-step client (C16): chunk i is sent only after the client has received gates[i]
+	// response messages; a Read that needs a chunk the client has not sent yet would block for
+	// ever on a real connection: it is recorded as a stall (and the chunk released).
+	gates    []int
+	idx      int
+	received func() int
+	stall    string
 }
 
 func (c *chunkReader) Read(p []byte) (int, error) {
@@ -112,6 +124,12 @@ func (c *chunkReader) Read(p []byte) (int, error) {
 	}
 	for len(c.chunks) > 0 && len(c.chunks[0]) == 0 {
 		c.chunks = c.chunks[1:]
+		c.idx++
+	}
+	if c.gates != nil && len(c.chunks) > 0 && c.idx < len(c.gates) && c.stall == "" {
+		if got := c.received(); got < c.gates[c.idx] {
+			c.stall = fmt.Sprintf("chunk%d-needs-%d-responses-client-has-%d", c.idx, c.gates[c.idx], got)
+		}
 	}
 	if len(c.chunks) == 0 {
 		if c.end == "unexpected" {
@@ -123,6 +141,7 @@ func (c *chunkReader) Read(p []byte) (int, error) {
 		return 0, nil
 	}
 	n := copy(p, c.chunks[0])
+	c.pulled += n
 	c.chunks[0] = c.chunks[0][n:]
 	if c.end == "eofdata" {
 		// the last bytes come together with io.EOF, as io.Reader allows
@@ -167,6 +186,25 @@ type backendRun struct {
 	writes   []string
 	ctx      context.Context
 	panicked bool
+	// progress log: after every read op "delivered:pulled" (bytes the handler got so far : bytes
+	// taken from the client's body so far), after every write op "total:flushed" (bytes of the
+	// client's response body written so far : offset of the last Flush, -1 = none yet)
+	body      *chunkReader
+	rec       *recorder
+	readProg  [][2]int
+	writeProg [][2]int
+}
+
+func (run *backendRun) logRead() {
+	run.readProg = append(run.readProg, [2]int{run.read.Len(), run.body.pulled})
+}
+
+func (run *backendRun) logWrite() {
+	fl := -1
+	if n := len(run.rec.flushes); n > 0 {
+		fl = run.rec.flushes[n-1]
+	}
+	run.writeProg = append(run.writeProg, [2]int{run.rec.Body.Len(), fl})
 }
 
 // runKey carries the scenario's backendRun to the scripted handler through the request context,
@@ -207,7 +245,7 @@ func scriptedHandler(kind string) http.Handler {
 			var readOps, otherOps [][]string
 			for _, op := range script {
 				switch op[0] {
-				case "readn", "readall", "close":
+				case "readn", "readfix", "readall", "close":
 					readOps = append(readOps, op)
 				default:
 					otherOps = append(otherOps, op)
@@ -234,11 +272,19 @@ func runScriptOps(run *backendRun, script [][]string, w http.ResponseWriter, r *
 	{
 		for _, op := range script {
 			switch op[0] {
-			case "readn": // readn k buf: read until k bytes were read in total by this op, or error
+			case "readn", "readfix":
+				// readn k buf: read until k bytes were read in total by this op, or error, never
+				// asking for more than is still wanted; readfix k buf: the same with a buffer of
+				// constant size (a proxy or bufio-style reader), so a Read may ask for more than
+				// the rest of the message
 				k, _ := strconv.Atoi(op[1])
 				bufSize, _ := strconv.Atoi(op[2])
 				for got := 0; got < k; {
-					n, err := r.Body.Read(make([]byte, min(bufSize, k-got)))
+					ask := min(bufSize, k-got)
+					if op[0] == "readfix" {
+						ask = bufSize
+					}
+					n, err := r.Body.Read(make([]byte, ask))
 					// note: the buffer is sized so the handler never over-reads
 					_ = n
 					got += n
@@ -247,6 +293,7 @@ func runScriptOps(run *backendRun, script [][]string, w http.ResponseWriter, r *
 						break
 					}
 				}
+				run.logRead()
 			case "readall":
 				bufSize, _ := strconv.Atoi(op[1])
 				buf := make([]byte, bufSize)
@@ -257,6 +304,7 @@ func runScriptOps(run *backendRun, script [][]string, w http.ResponseWriter, r *
 						break
 					}
 				}
+				run.logRead()
 			case "sethdr":
 				w.Header().Set(unhs(op[1]), unhs(op[2]))
 			case "addhdr":
@@ -273,6 +321,7 @@ func runScriptOps(run *backendRun, script [][]string, w http.ResponseWriter, r *
 				}
 				_ = n
 				run.writes = append(run.writes, res)
+				run.logWrite()
 			case "close": // the handler closes the request body (possibly more than once)
 				_ = r.Body.Close()
 			case "flush":
@@ -465,6 +514,40 @@ func serveScenario(sc *Scenario, t *vanguard.Transcoder) string {
 		RequestURI: target,
 	}).WithContext(ctx)
 	rec := &recorder{ResponseRecorder: httptest.NewRecorder()}
+	run.body, run.rec = body, rec
+	if len(sc.Gates) == len(body.chunks) && len(sc.Gates) > 0 {
+		endFlag := byte(0)
+		switch sc.ClientProto {
+		case "grpcweb":
+			endFlag = 0x80
+		case "connect-stream":
+			endFlag = 2
+		}
+		body.gates = sc.Gates
+		body.received = func() int {
+			// complete data frames in the flushed part of the response
+			fl := 0
+			if n := len(rec.flushes); n > 0 {
+				fl = rec.flushes[n-1]
+			}
+			b := rec.Body.Bytes()
+			if fl < len(b) {
+				b = b[:fl]
+			}
+			count := 0
+			for len(b) >= 5 {
+				n := int(binary.BigEndian.Uint32(b[1:5]))
+				if len(b) < 5+n {
+					break
+				}
+				if b[0]&endFlag == 0 || endFlag == 0 {
+					count++
+				}
+				b = b[5+n:]
+			}
+			return count
+		}
+	}
 	func() {
 		defer func() {
 			if r := recover(); r != nil {
@@ -503,6 +586,30 @@ func serveScenario(sc *Scenario, t *vanguard.Transcoder) string {
 		} else {
 			add("bw", strings.Join(run.writes, ","))
 		}
+		// progress: offsets equal to the final body length are rendered as E (the model does not
+		// know the byte length of end frames whose encoding vanguard generates)
+		total := rec.Body.Len()
+		pos := func(x int) string {
+			switch {
+			case x < 0:
+				return "-"
+			case x == total:
+				return "E"
+			}
+			return strconv.Itoa(x)
+		}
+		prog := func(l [][2]int, f func(int) string) string {
+			if len(l) == 0 {
+				return "-"
+			}
+			parts := make([]string, len(l))
+			for i, e := range l {
+				parts[i] = f(e[0]) + ":" + f(e[1])
+			}
+			return strings.Join(parts, ",")
+		}
+		add("rp", prog(run.readProg, strconv.Itoa))
+		add("wp", prog(run.writeProg, pos))
 		ctxDone := "0"
 		if run.ctx.Err() != nil {
 			ctxDone = "1"
@@ -511,6 +618,9 @@ func serveScenario(sc *Scenario, t *vanguard.Transcoder) string {
 	}
 	res := rec.Result()
 	out = append(out, canonClient(sc, rec, res)...)
+	if body.stall != "" {
+		add("stall", body.stall)
+	}
 	add("heads", strconv.Itoa(rec.heads))
 	if run.panicked {
 		add("panic", "1")
